@@ -113,7 +113,7 @@ Proof. vm_compute. repeat split. Qed.
 Definition exRt : runtime :=
   {| leaf_u := fun s x => match x with PAtom a => Ok (PAtom (10 + a)) | _ => Raise EType end;
      leaf_m := fun s x => Ok x; none_u := fun x => match x with PAtom 0 => Ok x | _ => Raise EValue end;
-     load_scalar := fun x => Ok x; values_scalar := fun _ => Raise EType; items_scalar := fun _ => Raise EType;
+     load_scalar := fun x => Ok x; values_scalar := fun _ => Raise EType; items_scalar := fun _ => Raise EType; unpack_scalar := fun _ => Raise EType;
      pairlike_scalar := fun _ => false; index := fun i => PAtom (100 + i); unhashable_class := fun _ => false;
      atom_eq := fun a b => (Nat.eqb a 3 && Nat.eqb b 4) || (Nat.eqb a 4 && Nat.eqb b 3);
      none := PAtom 0; suppressed := fun _ => true |}.
